@@ -910,3 +910,33 @@ func checkContentR(in, out *RMsg) string {
 	}
 	return ""
 }
+
+// joinViaLines rewrites a message so that all its Via values sit on one header
+// line (name as given: "Via" or "v"), comma-separated, where the first Via line was.
+func joinViaLines(wire []byte, name, sep string) []byte {
+	head, body, ok := bytes.Cut(wire, []byte("\r\n\r\n"))
+	if !ok {
+		return wire
+	}
+	lines := strings.Split(string(head), "\r\n")
+	var vals []string
+	first := -1
+	var out []string
+	for i, ln := range lines {
+		n, v, isHdr := strings.Cut(ln, ":")
+		if i > 0 && isHdr && (strings.EqualFold(strings.TrimSpace(n), "via") || strings.EqualFold(strings.TrimSpace(n), "v")) {
+			if first < 0 {
+				first = len(out)
+				out = append(out, "")
+			}
+			vals = append(vals, strings.Trim(v, " \t"))
+			continue
+		}
+		out = append(out, ln)
+	}
+	if first < 0 {
+		return wire
+	}
+	out[first] = name + ": " + strings.Join(vals, sep)
+	return append([]byte(strings.Join(out, "\r\n")+"\r\n\r\n"), body...)
+}
